@@ -58,29 +58,30 @@ type rec struct {
 
 // A Runner drives one real manager over a world and records what it sees.
 type Runner struct {
-	W        *World
-	Sim      *mgrsim.Sim
-	CM       *chain.Manager
-	Tip      *chaingen.Node
-	Start    *chaingen.Node
-	Known    map[*chaingen.Node]bool // nodes whose blocks the manager stored
-	Applied  map[*chaingen.Node]bool // nodes that were on the best chain at some time (full state, supplement)
-	pendUpd  []updRec
-	lastRev  *chaingen.Node
-	elemNode map[*chaingen.Node]*chaingen.Node // whose element accumulator the stored state of a block carries
-	Meta     map[types.TransactionID]Meta
-	NoCoq    string // reason why this history has no Coq case ("" = it has one)
-	recs     []rec
-	Fail     func(kind, detail string)
-	Stats    map[string]int
-	MW       uint64
+	W             *World
+	Sim           *mgrsim.Sim
+	CM            *chain.Manager
+	Tip           *chaingen.Node
+	Start         *chaingen.Node
+	Known         map[*chaingen.Node]bool // nodes whose blocks the manager stored
+	Applied       map[*chaingen.Node]bool // nodes that were on the best chain at some time (full state, supplement)
+	pendUpd       []updRec
+	lastRev       *chaingen.Node
+	minedFromPool map[*chaingen.Node]bool           // blocks mined from the pool by coreutils.MineBlock and adopted
+	elemNode      map[*chaingen.Node]*chaingen.Node // whose element accumulator the stored state of a block carries
+	Meta          map[types.TransactionID]Meta
+	NoCoq         string // reason why this history has no Coq case ("" = it has one)
+	recs          []rec
+	Fail          func(kind, detail string)
+	Stats         map[string]int
+	MW            uint64
 }
 
 // NewRunner starts a manager at genesis.
 func NewRunner(w *World, fail func(kind, detail string)) *Runner {
 	s := mgrsim.NewSim(w.T, nil)
 	r := &Runner{W: w, Sim: s, CM: s.CM, Tip: w.T.Nodes[0], Start: w.T.Nodes[0], Known: map[*chaingen.Node]bool{w.T.Nodes[0]: true}, Applied: map[*chaingen.Node]bool{w.T.Nodes[0]: true},
-		Meta: map[types.TransactionID]Meta{}, elemNode: map[*chaingen.Node]*chaingen.Node{w.T.Nodes[0]: w.T.Nodes[0]}, Fail: fail, Stats: map[string]int{}, MW: 2_000_000}
+		Meta: map[types.TransactionID]Meta{}, minedFromPool: map[*chaingen.Node]bool{}, elemNode: map[*chaingen.Node]*chaingen.Node{w.T.Nodes[0]: w.T.Nodes[0]}, Fail: fail, Stats: map[string]int{}, MW: 2_000_000}
 	return r
 }
 
@@ -101,11 +102,20 @@ func (r *Runner) MetaOf(id types.TransactionID, dflt Meta) Meta { return r.meta(
 // AbsBlock projects the transactions of a tree block (signed on its parent).
 func (r *Runner) AbsBlock(n *chaingen.Node) (v1, v2 []ATx) {
 	m := Meta{SignedAt: n.Height - 1, POK: true}
+	// a block of the generator carries its own copies, signed on its parent (an id does not cover
+	// the signatures, so a submitted transaction with the same id may be signed for another height);
+	// a block mined from the pool carries the pool's copies
+	pick := func(id types.TransactionID) Meta {
+		if r.minedFromPool[n] {
+			return r.meta(id, m)
+		}
+		return m
+	}
 	for _, t := range n.Block.Transactions {
-		v1 = append(v1, r.W.AbsV1(t, r.meta(t.ID(), m)))
+		v1 = append(v1, r.W.AbsV1(t, pick(t.ID())))
 	}
 	for _, t := range n.Block.V2Transactions() {
-		v2 = append(v2, r.W.AbsV2(t, r.meta(t.ID(), m)))
+		v2 = append(v2, r.W.AbsV2(t, pick(t.ID())))
 	}
 	return
 }
@@ -153,16 +163,19 @@ func (r *Runner) Chain(op mgrsim.Op) mgrsim.Obs {
 			break
 		}
 		n := r.W.T.Nodes[i]
-		if r.Known[n] {
-			continue
+		if r.Applied[n] {
+			continue // "already have this block" (it has a supplement)
 		}
 		if n.Parent == nil || !r.Known[n.Parent] || !n.HdrOK {
 			break
 		}
-		r.Known[n] = true
-		// the header-derived state copies the accumulator of the parent's stored state
+		// the header-derived state copies the accumulator of the parent's stored state; a block
+		// that was stored but never applied is processed again and gets the parent's current one
 		r.elemNode[n] = r.elemNode[n.Parent]
-		r.pendUpd = append(r.pendUpd, updRec{n, false})
+		if !r.Known[n] {
+			r.Known[n] = true
+			r.pendUpd = append(r.pendUpd, updRec{n, false})
+		}
 	}
 	o := r.Sim.Do(op)
 	if o.Panic {
@@ -254,6 +267,7 @@ func (r *Runner) Adopt(b types.Block) bool {
 	}
 	n := r.W.T.AddBlock(b, "")
 	if n != nil {
+		r.minedFromPool[n] = true
 		r.elemNode[n] = r.elemNode[before]
 		r.pendUpd = append(r.pendUpd, updRec{n, false})
 	}
